@@ -221,6 +221,8 @@ struct Cfg{
 struct GenOpts{
     unsigned families = 31;     // bit mask over Family
     int max_dims = 3;
+    int min_dims = 1;
+    int wavelet_order = 0;      // 0: random (1 or 3)
     int max_outs = 3;
     int min_outs = 0;
     int max_points = 400;
